@@ -120,8 +120,6 @@ Definition f9_class (text : list cp) (ts : list token) (frag : list cp) (max : N
                      match slice_cp text (t_from tk) (t_to tk) with Some b => cps_eqb b frag | None => false end) ts.
 (* F10: the analyzer emits overlapping tokens *)
 Definition f10_class (ts : list token) : bool := negb (disjoint_fromb 0 ts).
-(* F21: offset_to is not monotone along the token stream *)
-Definition f21_class (ts : list token) : bool := negb (sorted_byb t_to ts).
 (* F22: the token stream is that of the FacetTokenizer as coded (offsets never written) *)
 Definition f22_class (text : list cp) (ts : list token) : bool := tokens_eqb (facet_tokenizer text) ts && negb (tokens_text_spec text ts).
 
@@ -157,20 +155,6 @@ Proof.
   assert (Hs : slice_cp text (t_from tk) (t_to tk) = Some (sn_fragment sn)).
   { apply slice_cp_spec. exists a, c. rewrite <- E1, <- E2. auto. }
   rewrite Hs. apply cps_eqb_eq. reflexivity.
-Qed.
-
-Lemma snippet_ranges_unless_f21 :
-  forall (score : Type) szero sadd spos scmp lower_str text ts terms max prefix postfix sn,
-  Forall (span_ok text) ts -> from_sorted ts -> f21_class ts = false ->
-  snippet_of score szero sadd spos scmp lower_str terms max text ts = Some sn ->
-  ranges_disjoint 0 (collapse (sn_hl sn)) /\
-  Forall (fun r => boundary (sn_fragment sn) (fst r) /\ boundary (sn_fragment sn) (snd r)) (collapse (sn_hl sn)) /\
-  (forall p, covered p (collapse (sn_hl sn)) <-> covered p (sn_hl sn)) /\
-  to_html prefix postfix sn <> None.
-Proof.
-  intros score szero sadd spos scmp lower_str text ts terms max prefix postfix sn Hsp Hfs Hc Hsn.
-  apply (snippet_ranges_ok score szero sadd spos scmp lower_str text ts terms max prefix postfix sn Hsp Hfs); [|exact Hsn].
-  apply sorted_byb_spec. unfold f21_class in Hc. apply negb_false_iff in Hc. exact Hc.
 Qed.
 
 Lemma highlighted_disjoint_unless_f10 :
